@@ -125,6 +125,43 @@ func checkPath(fwd, ret []int) (res result) {
 		return result{class: "bad-block-len", key: "bad-block-len", detail: fmt.Sprintf("block lens %d/%d want %d %s", len(sp.ForwardBlock), len(sp.ReturnBlock), want, short(desc()))}
 	}
 
+	// Rebuilding a path object that already carries blocks of other (longer)
+	// labels must give exactly the blocks of a fresh build.
+	for _, prior := range []int{65535, 300, 100} {
+		pf := make([]int, len(fwd))
+		pr := make([]int, len(ret))
+		for i := range pf {
+			pf[i] = prior
+		}
+		for i := 1; i < len(pr); i++ {
+			pr[i] = prior
+		}
+		if refSize(pf, pr) > 255 {
+			continue
+		}
+		ph := make([]m.SwitchHop, n)
+		for i := 0; i < n; i++ {
+			if i < n-1 {
+				ph[i].ForwardLabel = m.SwitchLabel(prior)
+			}
+			if i > 0 {
+				ph[i].ReturnLabel = m.SwitchLabel(prior)
+			}
+		}
+		sp2 := &m.SwitchPath{Hops: ph}
+		if err := sp2.BuildBlocks(); err != nil {
+			break
+		}
+		sp2.Hops = append([]m.SwitchHop(nil), hops...)
+		if err := sp2.BuildBlocks(); err != nil {
+			return result{class: "rebuild-refused", key: "rebuild-refused", detail: fmt.Sprintf("BuildBlocks on a path object that already had blocks: %v %s", err, short(desc()))}
+		}
+		if !bytes.Equal(sp2.ForwardBlock, sp.ForwardBlock) || !bytes.Equal(sp2.ReturnBlock, sp.ReturnBlock) {
+			return result{class: "rebuild-differs", key: "rebuild-differs-from-fresh-build", detail: fmt.Sprintf("blocks rebuilt on a path object that carried blocks of labels %d are %x / %x, a fresh build gives %x / %x %s", prior, sp2.ForwardBlock, sp2.ReturnBlock, sp.ForwardBlock, sp.ReturnBlock, short(desc()))}
+		}
+		break
+	}
+
 	// Traverse inside a guarded buffer. The block slice keeps its capacity into
 	// the trailing guard so that an out-of-block write is observed, not masked.
 	buf := make([]byte, guard+want+guard)
